@@ -45,7 +45,7 @@ def run_one(d, all_checks):
 
 def main(argv):
     all_checks = "--all-checks" in argv
-    dirs = [a for a in argv if not a.startswith("--")]
+    dirs = [os.path.abspath(a) for a in argv if not a.startswith("--")]
     if not dirs:
         root = os.path.join(VERIF, "seeded")
         dirs = sorted(os.path.join(root, x) for x in os.listdir(root) if os.path.exists(os.path.join(root, x, "meta.json")))
